@@ -993,7 +993,7 @@ def align_locals(mods: dict[str, Module], inv: dict, log: list[str]) -> None:
 
 PURE_FUNCS = {"delayed", "len", "type", "str", "int", "float", "bool", "tuple", "range", "abs", "min", "max", "sum", "isinstance", "repr", "round", "sorted", "zip", "enumerate", "list", "dict", "set", "cast"}
 PURE_METHODS = {"copy", "reshape", "astype", "sum", "mean", "min", "max", "argmin", "argmax", "argsort", "tolist", "item", "transpose", "flatten", "squeeze", "get", "keys", "values", "items",
-                "index", "count", "startswith", "endswith", "format", "join", "strip", "split", "all", "any", "std", "var", "dot", "round", "clip", "nonzero", "view", "with_suffix", "exists"}
+                "index", "count", "startswith", "endswith", "format", "join", "strip", "split", "all", "any", "std", "var", "dot", "round", "clip", "nonzero", "view", "with_suffix", "exists", "to_numpy"}
 IMPURE_NUMPY = {"put", "copyto", "place", "putmask", "fill", "shuffle", "seed", "save", "savetxt", "load"}
 
 
@@ -1970,6 +1970,37 @@ def _mirror_induction_attr(mods: dict[str, Module], inv: dict, log: list[str]) -
                 log.append(f"{mod.relpath}:{lp.lineno} {q}: induction variable `{v}` mirrors `{atxt}`; loop read as `for _ in range({ast.unparse(count)})` advancing the attribute")
 
 
+def _fuse_nested_comprehensions(mods: dict[str, Module], log: list[str]) -> None:
+    """`[g(y) for y in [f(x) for x in X]]` (single generators, no conditions, `f(x)` pure, `y` a plain name) is `[g(f(x)) for x in X]`."""
+    n = 0
+
+    class T(ast.NodeTransformer):
+        def _fuse(self, node):
+            nonlocal n
+            self.generic_visit(node)
+            if len(node.generators) == 1 and not node.generators[0].ifs and isinstance(node.generators[0].target, ast.Name):
+                inner = node.generators[0].iter
+                if isinstance(inner, (ast.ListComp, ast.GeneratorExp)) and len(inner.generators) == 1 and not inner.generators[0].ifs and _pure(inner.elt) \
+                        and not any(isinstance(x, (ast.NamedExpr, ast.Yield, ast.Await)) for x in ast.walk(node)):
+                    y = node.generators[0].target.id
+                    inner_names = {x.id for x in ast.walk(inner.generators[0].target) if isinstance(x, ast.Name)}
+                    outer_free = {x.id for x in ast.walk(node.elt) if isinstance(x, ast.Name)} - {y}
+                    if not (inner_names & outer_free):
+                        node.elt = _Subst({y: inner.elt}).visit(node.elt)
+                        node.generators = [inner.generators[0]]
+                        n += 1
+            return node
+        visit_ListComp = _fuse  # noqa: N815
+        visit_GeneratorExp = _fuse  # noqa: N815
+
+    for mod in mods.values():
+        for q, _, fn in _functions_of(mod):
+            T().visit(fn)
+            ast.fix_missing_locations(fn)
+    if n:
+        log.append(f"{n} comprehension(s) over a comprehension fused")
+
+
 def _fromiter_to_array(mods: dict[str, Module], log: list[str]) -> None:
     """`np.fromiter(<generator>, dtype=D[, count=c])` consumes the generator where it stands and is `np.array([...], dtype=D)` (float64: `np.array([...])`);
     `list(<generator>)` likewise once a local generator has been substituted into it."""
@@ -2390,7 +2421,36 @@ def _splice_starred_displays(mods: dict[str, Module], log: list[str]) -> None:
     """`f(a, *(b, c))` is `f(a, b, c)` (after a local holding the tuple has been substituted)."""
     n = 0
 
+    def bare(e: ast.expr) -> ast.expr:
+        # tuple(<display>) / list(<display>) is the display
+        while isinstance(e, ast.Call) and isinstance(e.func, ast.Name) and e.func.id in ("tuple", "list") and len(e.args) == 1 and not e.keywords and isinstance(e.args[0], (ast.Tuple, ast.List)):
+            e = e.args[0]
+        return e
+
     class T(ast.NodeTransformer):
+        def visit_Starred(self, node: ast.Starred):  # noqa: N802
+            self.generic_visit(node)
+            node.value = bare(node.value)
+            return node
+
+        def _display(self, node):
+            nonlocal n
+            self.generic_visit(node)
+            if isinstance(node.ctx, ast.Load) and any(isinstance(a, ast.Starred) and isinstance(a.value, (ast.Tuple, ast.List)) and not any(isinstance(x, ast.Starred) for x in a.value.elts)
+                                                       for a in node.elts):
+                new: list[ast.expr] = []
+                for a in node.elts:
+                    if isinstance(a, ast.Starred) and isinstance(a.value, (ast.Tuple, ast.List)) and not any(isinstance(x, ast.Starred) for x in a.value.elts):
+                        new.extend(a.value.elts)
+                    else:
+                        new.append(a)
+                node.elts = new
+                n += 1
+            return node
+
+        visit_Tuple = _display  # noqa: N815
+        visit_List = _display  # noqa: N815
+
         def visit_Call(self, node: ast.Call):  # noqa: N802
             nonlocal n
             self.generic_visit(node)
@@ -3497,6 +3557,7 @@ def canonicalise(mods: dict[str, Module]) -> dict:
     _append_loops_to_comprehensions(mods, fwd_log)
     _Forward(mods, inv, fwd_log).run()
     _fromiter_to_array(mods, fwd_log)
+    _fuse_nested_comprehensions(mods, fwd_log)
     _Forward(mods, inv, fwd_log).run()
     _splice_starred_displays(mods, fwd_log)
     # displays that only became literal once new locals / constants were substituted
